@@ -10,7 +10,7 @@ Subclass `Machine` and add `cmd_<number>(self, q)` methods for further
 commands; `q` is a `Request`.
 """
 from sx.shims import struct as sstruct
-from sx.proxies import ite, SymBytes, SymInt, is_sym
+from sx.proxies import ite, sand, SymBytes, SymInt, is_sym
 
 RC_OK = 0x80
 RC_CMD = 0x83
@@ -44,30 +44,88 @@ def _mix(a):
     return (a ^ (a >> 8) ^ (a >> 16) ^ 0x5a) & 0xff
 
 
+class _Run(object):
+    """`n` bytes from `addr` holding `pattern` repeated (period 1 or 4)."""
+    __slots__ = ("addr", "n", "pattern")
+
+    def __init__(self, addr, n, pattern):
+        self.addr, self.n, self.pattern = addr, n, list(pattern)
+
+    def sym(self):
+        return is_sym(self.addr) or any(is_sym(b) for b in self.pattern)
+
+    def apply(self, addr, v):
+        off = addr - self.addr
+        p = self.pattern
+        if len(p) == 1:
+            b = p[0]
+        else:
+            b = p[-1]
+            for k in range(len(p) - 2, -1, -1):
+                b = ite(off % len(p) == k, p[k], b)
+        return ite(sand(addr >= self.addr, addr < self.addr + self.n), b, v)
+
+
+def _same_byte(a, b):
+    if a is b:
+        return True
+    sa, sb = is_sym(a), is_sym(b)
+    if sa and sb:
+        try:
+            return a.e.eq(b.e)          # the same term (hash-consed by z3)
+        except AttributeError:
+            return False
+    return not sa and not sb and a == b
+
+
 class Memory(object):
     """Byte-addressed memory: initial content + an ordered log of writes.
-    Addresses and bytes may be symbolic."""
+    Addresses and bytes may be symbolic.  A write of eight or more bytes
+    that repeat with period 1 or 4 is logged as one run (so that large
+    fills stay one if-then-else each)."""
+
+    RUN = 8
 
     def __init__(self):
-        self.writes = []        # (address, byte) oldest first
+        self.writes = []        # (address, byte) or _Run, oldest first
 
     def store(self, addr, byte):
         self.writes.append((addr, byte))
 
+    def store_run(self, addr, n, pattern):
+        if n >= self.RUN:
+            self.writes.append(_Run(addr, n, pattern))
+        else:
+            for i in range(n):
+                self.store(addr + i, pattern[i % len(pattern)])
+
     def write(self, addr, data):
-        for i in range(len(data)):
+        n = len(data)
+        if n >= self.RUN:
+            for period in (1, 4):
+                if all(_same_byte(data[i], data[i % period])
+                       for i in range(n)):
+                    self.store_run(addr, n, [data[k] for k in range(period)])
+                    return
+        for i in range(n):
             self.store(addr + i, data[i])
 
     def load(self, addr):
         v = _mix(addr)
-        for a, b in self.writes:
-            v = ite(a == addr, b, v)
+        for w in self.writes:
+            if isinstance(w, _Run):
+                v = w.apply(addr, v)
+            else:
+                v = ite(w[0] == addr, w[1], v)
         return v
+
+    def _symbolic(self):
+        return any(w.sym() if isinstance(w, _Run)
+                   else (is_sym(w[0]) or is_sym(w[1])) for w in self.writes)
 
     def read(self, addr, n):
         return SymBytes([self.load(addr + i) for i in range(n)]) \
-            if (is_sym(addr) or any(is_sym(b) for _, b in self.writes) or
-                any(is_sym(a) for a, _ in self.writes)) \
+            if (is_sym(addr) or self._symbolic()) \
             else bytes(self.load(addr + i) for i in range(n))
 
 
@@ -146,8 +204,7 @@ class Machine(object):
         n = int(q.arg3)
         mem = self.memory(self.chip_key(q))
         word = sstruct.pack("<I", q.arg2)
-        for i in range(n):
-            mem.store(q.arg1 + i, word[i % 4])
+        mem.store_run(q.arg1, n, [word[k] for k in range(4)])
         return self.reply(q)
 
     def cmd_17(self, q):        # link read: arg1 addr, arg2 length, arg3 link
